@@ -537,6 +537,18 @@ RULES["R22"] = rule_R22
 RULE_DOC["R22"] = rule_R22.__doc__.strip()
 
 
+def rule_R51(src, stats):
+    """(consts directive, automatic) `const N: &str = ..;` -> `const N: &'static str = ..;`: the elided lifetime of a reference in a
+    const item IS 'static in Rust; Verus turns consts into functions, where the elision is not accepted (E0106)"""
+    out = re.sub(r"(const\s+\w+\s*:\s*)&(\s*)str\b", r"\1&'static\2 str", src, count=1)
+    if out != src:
+        stats["R51"] = stats.get("R51", 0) + 1
+    return out
+
+
+RULE_DOC["R51"] = rule_R51.__doc__.strip()
+
+
 # --------------------------------------------------------------------------- unit parsing
 
 class FnSpec:
@@ -839,6 +851,7 @@ def build(unit_path, prelude_paths, canary=False):
                         t = re.sub(r"^\s*(pub\s+)?", "pub ", t, count=1)
                         if re.match(r"pub\s+static\b", t):
                             t = rule_R12(t, stats)
+                        t = rule_R51(t, stats)
                         emit(t + "\n", {"origin": "code", "file": part["file"], "line": it.line, "fn": it.name})
                 missing = [n for n in names if n != "*" and not any(it.kind == "const" and it.name == n for it in items)]
                 if missing:
